@@ -71,7 +71,7 @@ func elasticPipelinedScenarios(tier string) []clustermc.Scenario {
 		{"2n-2+1gpu", []world.NodeOpt{{Name: "n1", CPU: "4", Mem: "8Gi", GPUs: 2, GPUMemMiB: 40000}, {Name: "n2", CPU: "4", Mem: "8Gi", GPUs: 1, GPUMemMiB: 40000}}},
 		{"2n-3+1gpu", []world.NodeOpt{{Name: "n1", CPU: "4", Mem: "8Gi", GPUs: 3, GPUMemMiB: 40000}, {Name: "n2", CPU: "4", Mem: "8Gi", GPUs: 1, GPUMemMiB: 40000}}},
 	}
-	cfgs := []schedrun.Config{{}, {Placement: "spread", NoConsolidation: true}}
+	cfgs := []schedrun.Config{{}, {Placement: "spread", NoConsolidation: true, ConsolidatingReclaim: true}}
 	kMax := 3
 	if tier == "thorough" {
 		kMax = 4
@@ -119,7 +119,7 @@ func displacementScenarios() []clustermc.Scenario {
 			b.GQueue("d1", "", lim, lim, 1).GQueue("d2", "", 1, -1, 1).GQueue("qa", "d1", 1, -1, 1).GQueue("qb", "d1", 0, -1, 1).GQueue("qc", "d2", 1, -1, 1)
 		}})
 	}
-	cfgs := []schedrun.Config{{}, {Placement: "spread", NoConsolidation: true}, {Signatures: true}}
+	cfgs := []schedrun.Config{{}, {Placement: "spread", NoConsolidation: true, ConsolidatingReclaim: true}, {Signatures: true}}
 	for ti, tr := range trees {
 		for vi, vs := range victimSets {
 			for pi, pd := range pendings {
@@ -205,7 +205,7 @@ func C05() *clustermc.Family {
 			if tier == "thorough" {
 				lay = append(lay, nodeLayout{"3n-1+1+2gpu", []world.NodeOpt{{Name: "n1", CPU: "4", Mem: "8Gi", GPUs: 1, GPUMemMiB: 40000}, {Name: "n2", CPU: "3", Mem: "8Gi", GPUs: 1, GPUMemMiB: 40000}, {Name: "n3", CPU: "4", Mem: "8Gi", GPUs: 2, GPUMemMiB: 40000}}})
 			}
-			cfgs := []schedrun.Config{{}, {Placement: "spread", NoConsolidation: true}, {Signatures: true}, {Placement: "spread", Signatures: true, MapSeed: 3}}
+			cfgs := []schedrun.Config{{}, {Placement: "spread", NoConsolidation: true, ConsolidatingReclaim: true}, {Signatures: true}, {Placement: "spread", Signatures: true, MapSeed: 3, ConsolidatingReclaim: true}}
 			out := wlScenarios(tier, progressMenu(), lay, progressQueues(), cfgs, 3, 4)
 			out = append(out, displacementScenarios()...)
 			out = append(out, elasticPipelinedScenarios(tier)...)
